@@ -81,6 +81,26 @@ def check_write(BTS, width, s, acc):
     acc.n["transitions"] += 1
     if back != s:
         raise core.Violation("lossy", f"{PROP}:write:lossy:w{width}:{kind}", None, f"{desc}: read back {back[:12]!r}")
+    # the stream forms (what blocks and the jump table use): same bytes, same text, position exactly after the field
+    import io
+
+    buf = io.BytesIO()
+    buf.write(b"<")
+    try:
+        BTS.bwrite(buf, width, s)
+        buf.write(b">")
+        raw = buf.getvalue()
+        stream = io.BytesIO(raw)
+        stream.read(1)
+        back2 = BTS.bread(stream, width)
+        at = stream.tell()
+    except Exception as e:  # noqa: BLE001
+        raise core.Violation("stream-form-raises", f"{PROP}:write:stream-raises:w{width}:{kind}", None, f"{desc}: {type(e).__name__}: {e}")
+    acc.n["transitions"] += 2
+    if raw != b"<" + exp[1] + b">":
+        raise core.Violation("bytes", f"{PROP}:write:stream-bytes:w{width}:{kind}", None, f"{desc}: bwrite wrote {len(raw) - 2} bytes / other bytes than write")
+    if back2 != s or at != 1 + width:
+        raise core.Violation("lossy", f"{PROP}:write:stream-lossy:w{width}:{kind}", None, f"{desc}: bread returned {back2[:12]!r}, stream at {at}")
     return "stored"
 
 
@@ -101,6 +121,18 @@ def check_read(BTS, width, raw, acc):
         tail = "tail" if len(content) < width - 1 and any(raw[len(content) + 1:]) else "content"
         raise core.Violation("read-differs", f"{PROP}:read:differs:w{width}:{tail}", None,
                              f"width {width} bytes {raw[:12].hex()}..: read {got[:12]!r}, content is {want[:12]!r}")
+    import io
+
+    stream = io.BytesIO(raw + b">")
+    try:
+        got2 = BTS.bread(stream, width)
+    except Exception as e:  # noqa: BLE001
+        raise core.Violation("conformant-field-refused", f"{PROP}:read:stream-refused:w{width}:{type(e).__name__}", None,
+                             f"width {width} bytes {raw[:12].hex()}: bread: {type(e).__name__}: {e}")
+    acc.n["transitions"] += 1
+    if got2 != want or stream.tell() != width:
+        raise core.Violation("read-differs", f"{PROP}:read:stream-differs:w{width}", None,
+                             f"width {width} bytes {raw[:12].hex()}..: bread returned {got2[:12]!r} (stream at {stream.tell()}), content is {want[:12]!r}")
     return "read"
 
 
